@@ -42,6 +42,14 @@ def eid(ev):
     return None if ev is None else (ev.id if isinstance(ev, (E, EB)) else -1)
 
 
+class RaisesWhenTested:
+    def __init__(self, exc):
+        self.exc = exc
+
+    def __bool__(self):
+        raise self.exc
+
+
 class Entry:
     """spec of one registered exit: id, kind, behaviour without / with an exception in flight"""
 
@@ -53,7 +61,11 @@ class Entry:
         b = self.on_none if ev is None else self.on_exc
         if b == "raise":
             # odd entries fail with a BaseException that is not an Exception
-            raise (EB if self.id % 2 else E)(1000 + self.id * 2 + (0 if ev is None else 1))
+            exc = (EB if self.id % 2 else E)(1000 + self.id * 2 + (0 if ev is None else 1))
+            if ev is not None and self.id % 4 == 2 and self.kind not in ("acb", "scb"):
+                # with an exception in flight the exit's result is tested for truth: the failure may come from that test
+                return RaisesWhenTested(exc)
+            raise exc
         return b == "truthy"
 
     def raised_id(self, inflight):
